@@ -60,3 +60,8 @@ func VerifBoolWriterRun(ops [][3]int) []byte {
 	}
 	return append([]byte(nil), bw.Finish()...)
 }
+
+func VerifLossyFilterStrengths(simple bool, level, sharpness int, useLFDelta bool, refDelta0, modeDelta0 int,
+	useSegment, absoluteDelta bool, segStrength [4]int) [4][2][4]int {
+	return lossy.VerifFilterStrengths(simple, level, sharpness, useLFDelta, refDelta0, modeDelta0, useSegment, absoluteDelta, segStrength)
+}
